@@ -18,7 +18,7 @@ func init() {
 			"D3 time-bounded export keeps every overlapping block and file: the block test of filterFileToBackup equals 'block range overlaps [start,end]' on every ordering of its operands, and in timeStampFilterTarFile the union of the 'filter this file' and 'file entirely inside' tests equals 'file range overlaps [start,end]'; " +
 			"D4 restore installs only complete uploads: Engine.overlay hands files to FileStore.Replace only on paths where the archive was read to io.EOF, and never drops an error of readFileFromBackup; the partial last key batch is flushed to the index (same rule as C14 D2); " +
 			"D5 the source is unchanged: the only thing Backup/Export remove is the temporary snapshot directory returned by CreateSnapshot; " +
-			"D6 a failure on the serving node is visible to the requester: sibling agreement over the coordinator's connection handlers (20 today): when a handler's work closure failed, the handler writes to the connection before it returns (this found that processBackupShardRequest did not, fixed in efaff60), and pkg/tar.Stream closes the archive writer (end-of-archive marker) only when the directory walk succeeded. " +
+			"D6 a failure on the serving node is visible to the requester: sibling agreement over the coordinator's connection handlers (20 today): when a handler's work closure failed, the handler writes to the connection before it returns (this found that processBackupShardRequest did not, fixed in efaff60), and pkg/tar.Stream closes the archive writer (end-of-archive marker) only when the directory walk succeeded, and the walk callback never returns success while the error the walk reported to it is non-nil. " +
 			"NOT decided: tar framing, hard-link semantics, equality of reads on the restored shard.",
 		RuleText:    "obligation = (rule, function, site); outcome facts and path exploration; predicate compilation + exhaustive evaluation over weak orderings under the assumptions min<=max, start<=end; definition provenance",
 		Assumptions: commonAssumptions,
@@ -521,6 +521,57 @@ func runFailureAnsweredInBand(c *core.Ctx) {
 			"the tar writer is closed (which writes the end-of-archive marker) on a path where the directory walk has not been established to have succeeded: an archive that lacks files is indistinguishable from a complete one for the node that restores it")
 	}
 	c.Floor("closes of the archive writer in Stream", k, 1)
+
+	// the walk callback hands every error the walk reports to it back to the walk: a return made while the callback's
+	// error parameter is known to be non-nil returns a non-nil error. A callback that swallows "file vanished"
+	// lets Stream finish the archive with the end-of-archive marker although a file of the snapshot is missing.
+	nCb := 0
+	for _, e := range st.Graph().Events {
+		if e.Kind != core.EvCall || !walk(e.Call) || len(e.Call.Args) < 2 {
+			continue
+		}
+		lit, ok := ast.Unparen(e.Call.Args[1]).(*ast.FuncLit)
+		if !ok {
+			continue
+		}
+		var cb *core.FuncInfo
+		for _, l := range st.Lits {
+			if l.Lit == lit {
+				cb = l
+			}
+		}
+		if cb == nil || lit.Type.Params == nil {
+			continue
+		}
+		var errParam types.Object
+		for _, fld := range lit.Type.Params.List {
+			if t := cb.Info().TypeOf(fld.Type); t != nil && t.String() == "error" && len(fld.Names) == 1 {
+				errParam = cb.Info().ObjectOf(fld.Names[0])
+			}
+		}
+		if errParam == nil {
+			continue
+		}
+		nCb++
+		bad := ""
+		complete := cb.Flow().ExplorePaths(func(kk core.VarKey, fct core.Fact) bool {
+			return kk.Root == errParam && kk.Path == ""
+		}, func(ev *core.Event, stt core.State) {
+			if ev.Kind != core.EvReturn {
+				return
+			}
+			if stt[core.VarKey{Root: errParam}].Nil != core.NonNil {
+				return
+			}
+			rf, _ := cb.ReturnErrFact(ev)
+			if rf.Nil != core.NonNil {
+				bad = "the walk callback returns @" + c.P.Pos(ev.Pos()) + " without an error although the walk reported one to it (its error parameter is non-nil there): the file is skipped, Stream goes on and closes the archive with the end-of-archive marker, and the restoring node takes the partial archive for a complete shard"
+			}
+		})
+		c.Need(complete, "exploration of the walk callback of pkg/tar.Stream")
+		c.Check("walk-error-is-not-swallowed", fmt.Sprintf("%s/walk-callback#%d", st.Name, nCb), c.P.Pos(lit.Pos()), bad == "", bad)
+	}
+	c.Floor("walk callbacks with an error parameter in Stream", nCb, 1)
 }
 
 // runStreamFailureSignalled (C05 D6): the point stream of a remote iterator has no end marker that the reader
